@@ -49,7 +49,9 @@ def gen_scenario(rng):
             defs.append({"id": ndefs, "code": 100 + ndefs, "isMethod": True, "prio": 0, "params": [{"name": 0, "kind": "pk", "req": True, "ty": ["cls", c]}], "body": body})
             own.append(ndefs)
             ndefs += 1
-        K.append({"bases": bases, "mixin": mixin and not bases, "defs": own, "extend": bool(own) and bool(bases) and rng.random() < 0.6})
+        K.append({"bases": bases, "mixin": mixin and not bases, "defs": own, "extend": bool(own) and bool(bases) and rng.random() < 0.6,
+                  # @extend_super written on a later same-named definition of the body as well / instead
+                  "extend_later": [j for j in range(1, len(own)) if bases and rng.random() < 0.35]})
     calls = []
     for _ in range(rng.randint(4, 14)):
         calls.append([rng.randrange(ncls), rng.randrange(len(args))])
@@ -108,7 +110,7 @@ class ClassWorld:
             for j, di in enumerate(k["defs"]):
                 d = sc["defs"][di]
                 glb[f"T_{di}"] = self.w.ty(d["params"][0]["ty"])
-                if j == 0 and k["extend"]:
+                if (j == 0 and k["extend"]) or j in k.get("extend_later", []):  # a marker on a later same-named definition changes nothing
                     lines.append("    @extend_super")
                 lines.append(f"    def f(self, n0: T_{di}):")
                 lines.append(f"        ENTER({di}, n0)")
